@@ -28,7 +28,7 @@ ASSUMPTIONS = [
     "'immediately' = the two status requests are among the frames the console receives within 50 ms (+ link latency) of the new connection",
     "poll deadlines within 0.1 s of a group status arrival or of a connection change are not judged",
 ]
-PROBES = ["c14.poll_deadline_with_full_buffer", "c14.reconnection_dead_on_arrival", "c14.poll_deadline_in_outage", "c14.silence_after_outage", "c14.poll_write_error", "c14.fin", "c14.rst", "c14.blackhole", "c14.reboot", "c14.write_error", "c14.state_changed_while_down", "c14.unchanged_refresh",
+PROBES = ["c14.poll_in_second_session", "c14.poll_deadline_with_full_buffer", "c14.reconnection_dead_on_arrival", "c14.poll_deadline_in_outage", "c14.silence_after_outage", "c14.poll_write_error", "c14.fin", "c14.rst", "c14.blackhole", "c14.reboot", "c14.write_error", "c14.state_changed_while_down", "c14.unchanged_refresh",
           "c14.outage_beyond_heartbeat", "c14.second_outage", "c14.poll_after_outage", "c14.poll_fired", "c14.poll_repeated", "c14.poll_pushed_back"]
 
 
@@ -115,6 +115,11 @@ def gen_poll(rng) -> dict:
     inst = G.installation(rng, 4, allow_zero_zones=False, max_zones=4, max_acs=1)
     knobs = {"latency": rng.choice([0.0, 2.0**-7]), "seg": {"mode": "whole"}}
     tl = [{"at": 0.0, "op": "user.init"}]
+    reinit = rng.random() < 0.15
+    if reinit:
+        # the session that is observed is the second one of the same client object (init, shutdown, init): the silence poll
+        # belongs to every session
+        tl += [{"at": 2.0, "op": "user.shutdown"}, {"at": 3.0, "op": "user.init", "reinit": True}]
     mode = rng.choice(["silent", "silent", "answers", "chatty", "mixed"])
     if mode in ("silent", "mixed"):
         tl.append({"at": 6.0, "op": "console.mute", "kinds": ["group_status_request"]})
@@ -127,7 +132,7 @@ def gen_poll(rng) -> dict:
         t += gap
         if t < 1450.0:
             tl.append({"at": t, "op": "console.publish", "what": "zone", "ids": [rng.choice(zones)] if rng.random() < 0.5 else None})
-    info = {"mode": mode}
+    info = {"mode": mode, "reinit": reinit}
     if mode == "silent" and rng.random() < 0.35:
         # an outage the client knows about (FIN, refused reconnects) that contains a poll deadline, and a console that does not
         # answer the refresh's group status request afterwards either: the silence goes on, so must the polling
@@ -247,13 +252,18 @@ def execute_poll(sc: dict) -> dict:
     w = World(sc).run()
     V = []
     probes = {}
-    init = next((c for c in w.calls if c["op"] == "user.init"), None)
-    if init is None or init["result"] is not True:
+    inits = [c for c in w.calls if c["op"] == "user.init"]
+    init = inits[-1] if inits else None
+    if init is None or init["result"] is not True or any(c["result"] is not True for c in inits):
         return common.result(w, V, nontrivial=False)
+    if len(inits) > 1:
+        probes["c14.poll_in_second_session"] = 1
     lat = sc["knobs"].get("latency", 0.0)
     t_i = init["t_ret"]
     arrivals = sorted(x["t"] + lat for x in w.console.tx if x["kind"] == "group_status" and x["t"] + lat > t_i)
     ups = [l.t_accept for l in w.net.links if l.t_accept is not None][1:]
+    if len(inits) > 1:
+        ups = [u for u in ups if u > t_i]  # connections of the observed (last) session only
     reqs = sorted(e["t"] - lat for e in w.console.rx if e["reading"]["kind"] == "group_status_request" and e["t"] - lat > t_i + 1e-9
                   and not any(abs((e["t"] - lat) - u) < 0.1 for u in ups))
     if ups:
@@ -278,7 +288,7 @@ def execute_poll(sc: dict) -> dict:
             skip_near.append(D)
         expected.append(D)
         D += 300.0
-    downs = [e[1] for e in w.trace.events if e[2] in ("rx.fin", "rx.rst", "conn.lost")]
+    downs = [e[1] for e in w.trace.events if e[2] in ("rx.fin", "rx.rst", "conn.lost") and (len(inits) == 1 or e[1] > t_i)]
     outages = []
     for u in ups:
         before = [x for x in downs if x <= u]
